@@ -37,7 +37,9 @@ def lname(L):
     return L["algo"] + "(" + ",".join(f"{k}={round(v, 4)}" for k, v in sorted(L["params"].items())) + f",dt={L['dt']})"
 
 
-DAMPINGS = {"elastic": ["none", "rayleigh"], "thermal": ["none"]}
+# "tiny_mass": the same system in a unit system where every mass / capacity entry is ~1e-13 (mm-tonne-s like): nothing in a scheme
+# may depend on the absolute magnitude of M
+DAMPINGS = {"elastic": ["none", "rayleigh", "tiny_mass"], "thermal": ["none", "tiny_mass"]}
 CONSTRAINTS = ["none", "clamped", "prescribed"]
 LOADS = ["none", "constant", "changed"]
 
@@ -90,7 +92,7 @@ def describe(tier, seed):
         "exhaustive": True,
         "bound": "depth 1: all letters x all basis prior states x all configs; depth 2: quick = all first letters x all second (algo, params) at dt=0.37, damped system, load none/changed; thorough = all letter pairs, all configs, and all letter triples (depth 3) for loaded configs",
         "alphabet": {"letters_hyperbolic": len(letters("elastic")), "letters_parabolic": len(letters("thermal")),
-                     "damping": 2, "constraints": 3, "loads": 3},
+                     "damping": 3, "constraints": 3, "loads": 3},
         "assumptions": ["the load is constant within a step: 'the load at the evaluation point' is the load applied when Solve() is called",
                         "euler_explicit: constrained dofs have zero acceleration (documented); only the free-dof equation and the update are demanded",
                         "tolerances: 1e-9 relative to the sum of term magnitudes (equation), 1e-10 (update relations)"],
@@ -107,12 +109,12 @@ def make_simu(system, damping, elemType="TRI3", cls=None):
     if system == "elastic":
         mat = Models.Elastic.Isotropic(2, E=3.0, v=0.25, planeStress=True, thickness=0.8)
         simu = (cls or Simulations.Elastic)(mesh, mat)
-        simu.rho = 1.7
+        simu.rho = 1.7 if damping != "tiny_mass" else 1.7e-12
         if damping == "rayleigh":
             simu.Set_Rayleigh_Damping_Coefs(0.11, 0.07)
     else:
         simu = (cls or Simulations.Thermal)(mesh, Models.Thermal(k=1.3, c=0.9, thickness=0.8))
-        simu.rho = 1.7
+        simu.rho = 1.7 if damping != "tiny_mass" else 1.7e-12
     return simu
 
 
@@ -240,7 +242,10 @@ def check_step(L, sysd, prev, new, key):
         terms = [K @ un, C @ vn, M @ a1, F]
         res = (terms[0] + terms[1] + terms[2] - terms[3])[free]
         sc = sum(np.max(np.abs(t)) for t in terms) + 1e-300
-        if free.size and np.max(np.abs(res)) > 1e-9 * sc:
+        # round-off floor of the products themselves (K u_n may be tiny by cancellation: u_n close to a rigid-body mode)
+        mx = lambda A: float(np.max(np.abs(A))) if np.size(A) else 0.0
+        fl = 256 * np.finfo(float).eps * (mx(K) * mx(un) + mx(C) * mx(vn) + mx(M) * mx(a1) + mx(F))
+        if free.size and np.max(np.abs(res)) > 1e-9 * sc + fl:
             out.append(viol("equation", f"{lname(L)}: |K u_n + C v_n + M a - F| on free dofs = {np.max(np.abs(res)):.3e} (scale {sc:.3e})", **k))
         if cd.size and np.max(np.abs(a1[cd])) > 1e-12 * (np.max(np.abs(a1)) + 1e-300):
             out.append(viol("explicit_constrained_accel", f"{lname(L)}: constrained dofs have acceleration {a1[cd]}", **k))
@@ -259,7 +264,11 @@ def check_step(L, sysd, prev, new, key):
     terms = [K @ ut, C @ vt, (M @ at) if at is not None else np.zeros(n), F]
     res = (terms[0] + terms[1] + terms[2] - terms[3])[free]
     sc = sum(np.max(np.abs(t)) for t in terms) + 1e-300
-    if free.size and np.max(np.abs(res)) > 1e-9 * sc:
+    # round-off floor: the step is computed from the previous state, whose products with K, C, M may be many orders larger than the
+    # terms of the new state (a mass of 1e-13 against a stiffness of 1: the new state is quasi-static, the old one is not)
+    mx = lambda A: float(np.max(np.abs(A))) if np.size(A) else 0.0
+    fl = 256 * np.finfo(float).eps * (mx(K) * (mx(un) + mx(u1)) + mx(C) * (mx(vn) + mx(v1)) + mx(M) * (mx(an) + (mx(a1) if a1 is not None else 0.0)) + mx(F))
+    if free.size and np.max(np.abs(res)) > 1e-9 * sc + fl:
         out.append(viol("equation", f"{lname(L)}: |K u_t + C v_t + M a_t - F| on free dofs = {np.max(np.abs(res)):.3e} (scale {sc:.3e})", **k))
     if cd.size:
         # summed values on duplicated dofs are C04's subject; here each dof is constrained once
